@@ -129,13 +129,31 @@ def run(ctx):
                             out.append((b, show(e)[:80]))
         return out
 
+    def handler_bodies(h):
+        """the handler's own bodies plus server-level helper functions they call (so that de-duplicating the TxInfo
+        construction into a helper does not hide the sites)"""
+        out, seen, work = [], set(), list(F.descendants(h))
+        while work:
+            b = work.pop()
+            if b.id in seen or not b.blocks:
+                continue
+            seen.add(b.id)
+            out.append(b)
+            for c in b.calls():
+                g = F.fns.get(c.target_id) if c.target_id else None
+                if g is not None and g.blocks and g.name.startswith("server::") and g.id not in seen and not b.is_cleanup(c.bb):
+                    work.append(g)
+                    work += F.descendants(g.id)
+        return out
+
     for name, hh in sorted(handlers.items()):
+        found = 0
         for h in hh:
-            for body in F.descendants(h):
+            for body in handler_bodies(h):
                 for c in body.calls():
                     if not fi or c.target_id != fi[0].id or body.is_cleanup(c.bb):
                         continue
-                    n_sites += 1
+                    found += 1
                     t = W.resolve(F, body, origin(body, c.args[1]))
                     bad = []
                     for cc in calls_in(t):
@@ -144,9 +162,13 @@ def run(ctx):
                             bad += ["%s: %s" % (g.name.split("::")[-1], d) for (_, d) in value_dependent(g)]
                     if t[0] == "phi" or mentions(t, "phi"):
                         bad += ["%s: %s" % (name, d) for (_, d) in value_dependent(body, ".to")]
+                    if body.kind in ("fn", "method") and body.name.startswith("server::") and not body.name.startswith("<"):
+                        bad += ["%s: %s" % (body.name.split("::")[-1], d) for (_, d) in value_dependent(body)]
                     R.ob(not bad, "SIBLING", c.where(), "SIBLING|%s|target-kind" % name,
                          "%s maps the request's target to a transaction kind that depends on the address *value* (%s): brc20_call executes "
                          "Call(target) for every target, so simulation and execution disagree for that address" % (name, "; ".join(sorted(set(bad)))[:160]),
                          sample={"rule": "SIBLING", "site": name, "target_kind": show(t)[:70]})
+        if found:
+            n_sites += 1
     R.floor("rpc_txinfo_sites", n_sites, 6)
     return R
